@@ -212,7 +212,7 @@ func checkC17(c c17Case, _ *kit.Collector) kit.Result {
 		chk("M", p.Flag.M, want.M)
 		chk("PT", uint8(p.Flag.PT), want.PT)
 		chk("Seq", p.Seq, want.Seq)
-		if ref.StripZeros(p.Sim) != ref.StripZeros(ref.PhoneDigits(want.SimBCD[:])) {
+		if ref.StripZeros(p.Sim) != ref.StripZeros(ref.PhoneDigits(want.SimBCD[:])) || p.Sim == "" {
 			errs = append(errs, fmt.Sprintf("Sim=%q want %q", p.Sim, ref.PhoneDigits(want.SimBCD[:])))
 		}
 		chk("LogicChannel", p.LogicChannel, want.Channel)
